@@ -230,6 +230,7 @@ def lemma_L2(run, item):
     pre = S.inv()
     ex = run.executor()
     install_slider_summary(ex, run)
+    install_bitlist_summary(ex, run)
     for c in pre:
         ex.assume(c)
     st = State()
@@ -293,6 +294,7 @@ def lemma_L3(run, item):
     pre = S.inv()
     ex = run.executor()
     install_slider_summary(ex, run)
+    install_bitlist_summary(ex, run)
     for c in pre:
         ex.assume(c)
     st = State()
